@@ -58,6 +58,15 @@ def get_session(fams: tuple, addpath: bool, M: int, ibgp: bool):
         if addpath:  # ADD-PATH send/receive in both OPENs (capability value 3), for the configured families
             n.capability.add_path = 3
             p.capability.add_path = 3
+        # extended next hop (RFC 8950) in both OPENs: an IPv4 multicast route may have an IPv6 next hop, so the
+        # next-hop groups of one MP family are not all encoded on the same number of bytes
+        from exabgp.bgp.message.open.capability.capabilities import Capabilities
+        from exabgp.util.enumeration import TriState
+
+        for x in (n, p):
+            x.capability.nexthop = TriState.TRUE
+            for a, s_, h in Capabilities._NEXTHOP:
+                x.add_nexthop(a, s_, h)
         out = sessions.negotiate(n, peer_neighbor=p, direction=Direction.OUT, msg_size=M)
         inn = sessions.negotiate(n, peer_neighbor=p, direction=Direction.IN, msg_size=M)
         if addpath and not out.addpath.send(*FAMS[fams[0]]):
@@ -183,7 +192,12 @@ class Built:
         nid = 0
         for fam, mask, value, pathid, nhidx in case['anns']:
             nid += 1
-            nh = V4NH if fam in (1, 2) else V6NHS[nhidx % len(V6NHS)]
+            # next hops of one MP family are not all encoded on the same number of bytes: an IPv4 multicast route may
+            # have an IPv6 next hop (RFC 8950; nhidx >= 4 selects it), 4 against 16 bytes in one MP_REACH family
+            if fam == 2 and nhidx >= 4:
+                nh = V6NHS[nhidx % len(V6NHS)]
+            else:
+                nh = V4NH if fam in (1, 2) else V6NHS[nhidx % len(V6NHS)]
             self.anns.append((nid, (fam, mask, value, pathid), make_nlri(fam, mask, value, pathid), IP.from_string(nh), nh))
         for fam, mask, value, pathid in case['wds']:
             nid += 1
